@@ -78,7 +78,7 @@ def opcode_classes(repo: Repo, base_qual: str, enum_name: str):
     return out
 
 
-@rule("C14.1", ["C14"], "opcode numbers and operand encodings agree with the DWARF v4 tables", 250)
+@rule("C14.1", ["C14", "C15"], "opcode numbers and operand encodings agree with the DWARF v4 tables", 250)
 def c14_1(ctx: Ctx):
     repo = ctx.repo
     mod = repo.mod("dwarf.dwarf2")
